@@ -17,11 +17,6 @@ def isTypeError {β : Type} (r : Except CErr β) : Bool :=
   | .error (.typeError _) => true
   | _ => false
 
-def isOverflow {β : Type} (r : Except CErr β) : Bool :=
-  match r with
-  | .error (.overflow _) => true
-  | _ => false
-
 /-- `<html style="--x:inherit; width:var(--x)">`: the declaration is a `Pending` value whose
 solution is the keyword `inherit`.  `__missing__` maps `inherit` to `initial` on the root only
 *before* pending values are solved, so `parent_style[key]` is evaluated with `parent_style = None`
@@ -32,16 +27,6 @@ theorem var_inherit_on_root :
     (specified ⟨[("width", .val (.kw "inherit"))], none⟩ none "width").toOption
       = some (.kw "auto", true) := by
   decide
-
-set_option exponentiation.threshold 2000 in
-/-- `@page :nth(n + 10^400)`: on the first page `offset = 1 - 10^400`, and `offset / a` is a true
-division of Python ints whose result does not fit a float (`OverflowError`), although
-`index + 1 = a·n + b` has no solution and the selector simply does not match.
-(`C06.nth_test_iff` therefore carries the hypothesis that the quotient fits a float.) -/
-theorem page_nth_overflow :
-    isOverflow (pageTypeMatch ⟨none, none, none, some (1, (10 : Int) ^ 400, none), none⟩
-      ⟨"right", false, 0, "", []⟩) = true := by
-  decide +kernel
 
 /-- `<div style="border-top: 5px solid"><p style="border-top-width: inherit">`: the inherited value
 is stored as the computed value without calling the computing function, so the `<p>`, whose own
